@@ -111,6 +111,7 @@ fn mk_time(h: i8, m: i8, s: i8, ns: i32) -> Time {
 //@doc for EVERY civil date (-9999-01-01..=9999-12-31): the printed text is `YYYY-MM-DD` (10 bytes) for year >= 0 and `-YYYYYY-MM-DD` (13 bytes, ISO 8601 expanded year) for year < 0, and the independent reference reader decodes it to exactly (year, month, day)  [decode . print = id on Date]
 #[kani::proof]
 #[kani::unwind(9)]
+#[kani::solver(kissat)]
 fn c09_print_date() {
     let (y, m, d) = any_ymd();
     let date = mk_date(y, m, d);
@@ -216,13 +217,16 @@ fn date_spec_contract<'i>(_p: &DateTimeParser, input: &'i [u8]) -> Result<Parsed
 // because CBMC's symbolic execution cannot see that the rest of the input is empty and would otherwise unroll the time,
 // offset and RFC 9557 annotation parsers (> 15 min of symbolic execution alone, measured).
 fn unreachable_time_spec<'i>(_p: &DateTimeParser, _input: &'i [u8]) -> Result<Parsed<'i, ParsedTime<'i>>, Error> {
-    panic!("parse_time_spec reached")
+    assert!(false, "parse_time_spec reached");
+    Err(Error::adhoc_from_static_str("unreachable"))
 }
 fn unreachable_offset<'i>(_p: &DateTimeParser, _input: &'i [u8]) -> Result<Parsed<'i, Option<ParsedOffset>>, Error> {
-    panic!("parse_offset reached")
+    assert!(false, "parse_offset reached");
+    Err(Error::adhoc_from_static_str("unreachable"))
 }
 fn unreachable_annotations<'i>(_p: &DateTimeParser, _input: &'i [u8]) -> Result<Parsed<'i, ParsedAnnotations<'i>>, Error> {
-    panic!("parse_annotations reached")
+    assert!(false, "parse_annotations reached");
+    Err(Error::adhoc_from_static_str("unreachable"))
 }
 
 /// the public entry point behind `<civil::Date as FromStr>::from_str`, checked against the reference reader
@@ -363,13 +367,16 @@ fn time_spec_contract<'i>(_p: &DateTimeParser, input: &'i [u8]) -> Result<Parsed
 }
 
 fn unreachable_offset_parser<'i>(_p: &offset::Parser, _input: &'i [u8]) -> Result<Parsed<'i, ParsedOffset>, Error> {
-    panic!("offset::Parser::parse reached")
+    assert!(false, "offset::Parser::parse reached");
+    Err(Error::adhoc_from_static_str("unreachable"))
 }
 fn unreachable_month_day<'i>(_p: &DateTimeParser, _input: &'i [u8]) -> Result<Parsed<'i, ()>, Error> {
-    panic!("parse_month_day / parse_year_month reached (only for times in basic format)")
+    assert!(false, "parse_month_day / parse_year_month reached (only for times in basic format)");
+    Err(Error::adhoc_from_static_str("unreachable"))
 }
 fn unreachable_annotation_parser<'i>(_p: &rfc9557::Parser, _input: &'i [u8]) -> Result<Parsed<'i, ParsedAnnotations<'i>>, Error> {
-    panic!("rfc9557::Parser::parse reached")
+    assert!(false, "rfc9557::Parser::parse reached");
+    Err(Error::adhoc_from_static_str("unreachable"))
 }
 
 //@harness c09_time_shape_is_not_a_datetime
